@@ -60,7 +60,18 @@ def run(ctx):
                     size = ctx.rng.choice([1000, 200, 37 * g + 5])
                     if s + size <= pf_common.kmax(kn):
                         cases.append({'kn': kn, 's': s, 'e': s + size, 'mode': mode, 'chunk': 0, 'N': ctx.rng.choice([1, 3, 4, 7]),
-                                      'maxT': 1 << 31, 'minItems': 1, 'g': g, 'wait': 1 if mode == 'a' else ctx.rng.choice([0, 1]), 'rdv': 0, 'reuse': 0})
+                                      'maxT': (1 << 31) - 1, 'minItems': 1, 'g': g, 'wait': 1 if mode == 'a' else ctx.rng.choice([0, 1]), 'rdv': 0, 'reuse': 0})
+    # 64-bit ranges whose stripe offsets lie beyond 2^32, granularities that are no power of two (an offset aligned through a narrower type
+    # stays exact for powers of two and for small ranges): adaptive with wait, where the stripes are laid out
+    big64 = [kn for kn in range(8) if pf_common.KINDS[kn][0] == 64]
+    for g in ([3, 6, 48] if ctx.quick else [3, 5, 6, 7, 12, 24, 48, 63]):
+        for size in ([(1 << 33), (1 << 34) + 12345] if ctx.quick else [(1 << 32) + 5, (1 << 33), (1 << 33) + 12345, 3 * (1 << 32) + 5, (1 << 34) + 1, (1 << 40) + 7, (1 << 52) + 3]):
+            for kn in big64:
+                for N in ([3, 4] if ctx.quick else [1, 2, 3, 4, 7]):
+                    s0 = ctx.rng.choice([0, 1, g - 1] if not pf_common.KINDS[kn][1] else [0, -(1 << 35) + 1, 5])
+                    cases.append({'kn': kn, 's': s0, 'e': s0 + size, 'mode': 'a', 'chunk': 0, 'N': N, 'maxT': (1 << 31) - 1, 'minItems': 1, 'g': g,
+                                  'wait': 1, 'rdv': 0, 'reuse': 0})
+    ctx.cov['big64_stripe_cases'] = len(cases)
     cases += pf_common.gen_pf_cases(ctx, max(0, n - len(cases)), gmin=2, big_pool_every=0 if ctx.quick else 50)
     cases += pf_common.gen_pf_inpool_cases(ctx, 200 if ctx.quick else 3000, gmin=2, modes=('s', 'a'))
     results = pf_common.run_pf_cases(exe, cases)
